@@ -198,8 +198,7 @@ def reserve (p : Params) (c : Cache) (a : Nat) (o : Oracle) : Res :=
   if n > p.usizeMax then { cache := c, out := .unit, evs := [], status := .implPanic }
   else if c.shape.capacity < n then
     if tableOk p n && o.allocOk then
-      let (c', evs) := rebuild c n
-      { cache := c', out := .unit, evs := evs, rebuilt := some c.entries.length }
+      { cache := (rebuild c n).1, out := .unit, evs := (rebuild c n).2, rebuilt := some c.entries.length }
     else { cache := c, out := .unit, evs := [], status := .implPanic }
   else { cache := c, out := .unit, evs := [] }
 
@@ -211,8 +210,8 @@ def tryReserve (p : Params) (c : Cache) (a : Nat) (o : Oracle) : Res :=
     if !tableOk p n then { cache := c, out := .reserveOverflow, evs := [] }
     else if !o.allocOk then { cache := c, out := .reserveAlloc, evs := [] }
     else
-      let (c', evs) := rebuild c n
-      { cache := c', out := .reserveOk, evs := evs, rebuilt := some c.entries.length }
+      { cache := (rebuild c n).1, out := .reserveOk, evs := (rebuild c n).2,
+        rebuilt := some c.entries.length }
   else { cache := c, out := .reserveOk, evs := [] }
 
 /-- `shrink_to` (after the `fix:` commit): allocate the table for `max(len, min)` first and move only
@@ -222,8 +221,8 @@ def shrinkTo (p : Params) (c : Cache) (m : Nat) (o : Oracle) : Res :=
   if c.shape.capacity > n then
     if tableOk p n && o.allocOk then
       if bucketsFor n < c.shape.buckets ∧ freshCap n ≤ c.shape.capacity then
-        let (c', evs) := rebuild c n
-        { cache := c', out := .unit, evs := evs, rebuilt := some c.entries.length }
+        { cache := (rebuild c n).1, out := .unit, evs := (rebuild c n).2,
+          rebuilt := some c.entries.length }
       else { cache := c, out := .unit, evs := [] }
     else { cache := c, out := .unit, evs := [], status := .implPanic }
   else { cache := c, out := .unit, evs := [] }
